@@ -32,7 +32,7 @@ class Unusable(Exception):
 
 class SqliteModel:
     def __init__(self, db: SymDB, scope: Optional[List[Dict[str, Slot]]] = None, consts: Optional[Dict[int, IntV]] = None,
-                 track_like: bool = False):
+                 track_like: bool = False, assume_functions: bool = False):
         self.db = db
         self.scope: List[Dict[str, Slot]] = scope if scope is not None else []
         self.consts = consts or {}
@@ -41,6 +41,9 @@ class SqliteModel:
         self.likes: List[dict] = []        # per LIKE evaluation: ci / cs results, dynamic pattern parts (for regions)
         self.coalesced: List[Any] = []     # null flags of x in COALESCE(x, '') (region: NULL read as empty string)
         self.used: List[str] = []          # operators / functions evaluated (evidence)
+        # known finding sa-function-missing-on-sqlite: read strpos() as INSTR() and concat() as || (an assumption,
+        # stated in the evidence; the replay registers the two functions with exactly this meaning)
+        self.assume_functions = assume_functions
 
     # ------------------------------------------------------------------ entry points
     def where(self, tree):
@@ -342,6 +345,15 @@ class SqliteModel:
         raise Unmodelled(t[1])
 
     def ev_call(self, t):
+        if self.assume_functions and t[1] in ("STRPOS", "CONCAT"):
+            self._use(t[1] + " (assumed)")
+            args = [self.ev(a) for a in t[2]]
+            if t[1] == "STRPOS":
+                return self.fn_INSTR(args)
+            out = self._str(args[0])
+            for a in args[1:]:
+                out = V.s_concat(out, self._str(a))
+            return out
         f = getattr(self, "fn_" + t[1], None)
         if f is None:
             raise Unmodelled(f"function {t[1]}")
